@@ -342,3 +342,74 @@ Proof.
   { eapply run_inv; eauto. destruct L as [->| ->]; [apply init_inv_none|apply init_inv]; auto. }
   destruct I as [_ [_ [I3 _]]]. unfold inv_out in O. rewrite (final_no_pending c I3 F), app_nil_r in O. exact O.
 Qed.
+
+(* ---------- the statements of Props/C12.v ---------- *)
+Theorem terminates max p ls c :
+  1 <= max -> wfprog p -> run (Some max) false (init max p) ls = Some c ->
+  length ls + mu max c <= work p * S max /\
+  (forall l c', step (Some max) false c l = Some c' -> mu max c' < mu max c) /\
+  (terminal (Some max) false c -> final c).
+Proof.
+  intros M W R. pose proof (init_inv max p W) as I0. pose proof (run_inv _ _ _ _ _ R I0) as I.
+  split; [|split].
+  - pose proof (run_bounded max false ls _ _ I0 R) as B. unfold mu in B at 2. simpl in B.
+    rewrite Nat.sub_diag in B. lia.
+  - intros l c' S. eapply step_mu; eauto.
+  - apply terminal_final; auto.
+Qed.
+
+Theorem same_answers max rb rb' p ls c :
+  run (Some max) rb (init max p) ls = Some c ->
+  exists c0, run None rb' (init 0 p) (erase ls) = Some c0 /\ out c0 = out c /\ tasks c0 = tasks c /\
+             (final c -> final c0).
+Proof.
+  intros R. exists (forget c). split; [|repeat split; auto].
+  apply (simulation max rb rb' ls (init max p) c R).
+Qed.
+
+(* disj of two goals under SetMaxRoutines(ctx, 1) with the blocking release of the code: every acquisition needs a
+   tick (the parent holds the only permit), a last tick fills the channel, both children write their answers and
+   then sit in releaseRoutine for ever; the root sits in wg.Wait() for ever and never closes the stream *)
+Definition deadlock_sched : list label :=
+  [LAcquire 0; LTick; LAcquire 1; LTick; LAcquire 2; LTick; LEmit 1; LFinish 1; LEmit 2; LFinish 2].
+
+Theorem refuted_blocking_release :
+  exists c, run (Some 1) true (init 1 prog_disj) deadlock_sched = Some c /\
+    terminal (Some 1) true c /\ ~ final c /\ out c = [8; 7] /\
+    (exists t, nth_error (tasks c) 1 = Some t /\ st t = Releasing) /\
+    (exists t, nth_error (tasks c) 0 = Some t /\ st t = Running).
+Proof.
+  eexists. split; [vm_compute; reflexivity|]. split; [|split; [|split; [reflexivity|split]]].
+  - intros l. destruct l as [i|i|i|i|]; try reflexivity; destruct i as [|[|[|[|i]]]]; reflexivity.
+  - intros F. specialize (F _ (or_introl eq_refl)). discriminate.
+  - eexists. split; reflexivity.
+  - eexists. split; reflexivity.
+Qed.
+
+(* for C11: a single goal writing one answer under SetMaxRoutines(ctx, 1): the answer is delivered and the stream is
+   closed (the function has returned), but the goroutine never gets out of releaseRoutine *)
+Definition prog_leaf : list task := [mkT None false NotStarted [7]].
+Theorem refuted_release_leak :
+  exists c, run (Some 1) true (init 1 prog_leaf) [LAcquire 0; LTick; LEmit 0; LFinish 0] = Some c /\
+    out c = [7] /\ (exists t, tasks c = [t] /\ st t = Releasing) /\
+    forall ls c', run (Some 1) true c ls = Some c' -> c' = c.
+Proof.
+  eexists. split; [vm_compute; reflexivity|]. split; [reflexivity|]. split; [eexists; split; reflexivity|].
+  intros ls c' R. destruct ls as [|l ls]; simpl in R; [inversion R; reflexivity|].
+  exfalso. destruct l as [i|i|i|i|]; try discriminate; destruct i as [|[|i]]; discriminate.
+Qed.
+
+(* pacing: a Go that is held up (no token) is held up for one tick only - the tick is enabled and enables it *)
+Theorem tick_enables_acquire max rb c i t :
+  1 <= max -> nth_error (tasks c) i = Some t -> st t = NotStarted -> parent_running (tasks c) t = true ->
+  tokens c = 0 ->
+  step (Some max) rb c (LAcquire i) = None /\
+  exists c1 c2, step (Some max) rb c LTick = Some c1 /\ step (Some max) rb c1 (LAcquire i) = Some c2.
+Proof.
+  intros M E S P Z. split.
+  - simpl. rewrite E, S, P, Z. reflexivity.
+  - assert (L : tokens c <? max = true) by (apply Nat.ltb_lt; lia).
+    eexists. eexists. split.
+    + simpl. rewrite L. reflexivity.
+    + simpl. rewrite E, S, P. reflexivity.
+Qed.
